@@ -32,6 +32,16 @@ def check_isr(inp):
       got = (s is None or s <= x) and (e is None or x < e)
       if got != ref_isr(cs, ce, ns, ne, x):
         return f'intersect_slice_ranges({cs},{ce},{ns},{ne}) = ({s},{e}) wrong at {x}'
+  # client ids are bytes: b'' is a bound like any other (the empty range as a stop), not "unset"
+  bvals = [None, b'', b'a', b'a\x00', b'c']
+  probes = [b'', b'\x00', b'a', b'a\x00', b'b', b'c', b'd']
+  for cs, ce, ns, ne in itertools.product(bvals, repeat=4):
+    s, e = fd.intersect_slice_ranges(cs, ce, ns, ne)
+    for x in probes:
+      got = (s is None or s <= x) and (e is None or x < e)
+      want = ((cs is None or cs <= x) and (ce is None or x < ce) and (ns is None or ns <= x) and (ne is None or x < ne))
+      if got != want:
+        return f'intersect_slice_ranges({cs!r},{ce!r},{ns!r},{ne!r}) = ({s!r},{e!r}) wrong at id {x!r}'
 
 
 def table(n):
